@@ -231,9 +231,13 @@ def report(ctx, case, j, budget):
     """turn the judge's raw findings into signatures (after minimisation)"""
     for clause in list(j.found):
         ctx.hit("oracle-raw:" + clause)
-        if budget.get(clause, 0) <= 0:
+        # the minimisation budget is per (clause, preliminary classification), so that the many instances of a known
+        # finding cannot use up the budget of a different violation of the same clause
+        bkey = (clause, j.found[clause][1])
+        left = budget.setdefault(bkey, budget.get(clause, 0))
+        if left <= 0:
             continue
-        budget[clause] -= 1
+        budget[bkey] = left - 1
         small = shrink(case, clause)
         _, j2 = run_case(small, want_proj=False)
         if clause not in j2.found:
@@ -482,7 +486,7 @@ def check(ctx):
     fx = detect_fixes()
     ctx.extra["fixes_detected(f7,f8,race,close,trclose)"] = fx
     ctx.hit("fixes:" + fx)
-    budget = {c: (40 if ctx.quick else 150) for c in SIG}
+    budget = {c: (15 if ctx.quick else 60) for c in SIG}
     cases = []
 
     for c in SCRIPTED:
